@@ -240,17 +240,21 @@ impl Expression for Op {
                     let rhs_def = self.rhs.apply_type_info(&mut state);
                     let fallible = lhs_fallible || rhs_def.is_fallible();
                     rhs_def.maybe_fallible(fallible)
-                } else if !(lhs_def.contains_null() || lhs_def.contains_boolean())
+                } else if !(lhs_def.contains_null()
+                    || lhs_def.contains_boolean()
+                    || lhs_def.contains_undefined())
                     || lhs_value == Some(Value::Boolean(true))
                 {
-                    // lhs is always "true"
+                    // lhs is always "true" (a value that may be undefined reads as null)
                     lhs_def
                 } else {
                     // not sure if lhs is true/false, merge both
 
                     // We can remove Null from the lhs since we know that if the lhs is Null
                     // we will be returning the rhs and only the rhs type_def will then be relevant.
+                    // The same goes for undefined, which reads as null.
                     lhs_def.remove_null();
+                    lhs_def.remove_undefined();
 
                     lhs_def.union(maybe_rhs(&mut state))
                 }
